@@ -29,6 +29,28 @@ static int verif_fstat(int fd, struct stat *st) { (void) fd; st->st_mtime = (tim
 static u8 fw_short;
 static size_t verif_fwrite(const void *p, size_t sz, size_t n, FILE *f) { (void) p; (void) sz; (void) f; return (fw_short & 1) && n > 0 ? n - 1 : n; }
 static unsigned stream_writes;
+/* file_full_path's result: typed static storage instead of a heap object of symbolic size */
+static char path_buf[2 * SL + 8];
+static unsigned path_live;
+static void *verif_malloc(size_t n) { CHECK(path_live == 0 && n <= sizeof(path_buf), "harness: one output path alive at a time, within the modelled size"); path_live = 1; return path_buf; }
+static void verif_free(void *p) { if (p == (void *) path_buf) path_live = 0; }
+/* list.c pads its headings by the value printf returns */
+#include <stdarg.h>
+static int ro_printf(const char *fmt, ...)
+{
+	int r = 0;
+	if (fmt[0] == '%' && fmt[1] == 's' && fmt[2] == '\0') {
+		va_list ap; const char *s; va_start(ap, fmt); s = va_arg(ap, const char *); va_end(ap);
+		while (s[r] != '\0') ++r;
+	}
+	return r;
+}
+#define printf ro_printf
+static char dup_buf[2 * SL + 8];
+static char *verif_strdup(const char *s) { unsigned i; for (i = 0; s[i] != '\0'; ++i) dup_buf[i] = s[i]; dup_buf[i] = '\0'; return dup_buf; }
+#define strdup verif_strdup
+#define malloc verif_malloc
+#define free verif_free
 #define localtime verif_localtime
 #define time verif_time
 #define fstat(fd, st) verif_fstat(0, st)
@@ -38,6 +60,10 @@ static unsigned stream_writes;
 #include "src/filter.c"
 #include "lib/lha_reader.c"
 #undef time
+#undef printf
+#undef malloc
+#undef strdup
+#undef free
 
 /* ---- mutating arch layer: must be unreachable ---- */
 int lha_arch_mkdir(char *p, unsigned int m) { (void) p; (void) m; CHECK(0, "C10: read-only command reached lha_arch_mkdir"); return 0; }
@@ -107,8 +133,10 @@ void harness(void)
 	LHAOptions options;
 	unsigned i, j;
 
-	ASSUME(n <= M);
-	nmembers = n;
+	/* exactly M members (a symbolic count would make the stub's cursor, hence every header access, symbolic);
+	 * shorter archives are covered by the instance with a smaller M */
+	ASSUME(n == M);
+	nmembers = M;
 	for (i = 0; i < M; ++i) {
 		for (j = 0; j <= SL; ++j) { s_path[i][j] = (char) hpath[i * (SL + 1) + j]; s_name[i][j] = (char) hname[i * (SL + 1) + j]; s_target[i][j] = (char) htarget[i * (SL + 1) + j]; }
 		ASSUME(s_path[i][SL] == 0 && s_name[i][SL] == 0 && s_target[i][SL] == 0);
@@ -119,7 +147,7 @@ void harness(void)
 		hdrs[i].unix_username = (hflags[i] & 8) ? s_name[i] : NULL;
 		hdrs[i].unix_group = (hflags[i] & 16) ? s_name[i] : NULL;
 		/* directory/symlink entry, compressed file, or stored file */
-		strcpy(hdrs[i].compress_method, (hkind[i] % 3) == 0 ? "-lhd-" : (hkind[i] % 3) == 1 ? "-lh5-" : "-lh0-");
+		memcpy(hdrs[i].compress_method, (hkind[i] % 3) == 0 ? "-lhd-" : (hkind[i] % 3) == 1 ? "-lh5-" : "-lh0-", 6);
 		hdrs[i].os_type = hos[i]; hdrs[i].extra_flags = hextra[i]; hdrs[i].length = hlen[i]; hdrs[i].compressed_length = hlen[i] / 2;
 		hdrs[i].crc = hcrc[i]; hdrs[i].timestamp = hts[i]; hdrs[i].header_level = hos[i] & 3;
 		hdrs[i].unix_perms = hextra[i] >> 8; hdrs[i].os9_perms = hextra[i] >> 4; hdrs[i].unix_uid = hcrc[i]; hdrs[i].unix_gid = hcrc[i];
@@ -136,12 +164,17 @@ void harness(void)
 	rd.dir_policy = (LHAReaderDirPolicy) (policy % 3);
 
 	filt[0] = (char) f0; filt[1] = (char) f1; filt[2] = 0;
-	lha_filter_init(&filter, &rd, filt_list, nfilt & 1);
+	lha_filter_init(&filter, &rd, filt_list, 0);      /* wildcard selection is H06.glob/H06.filter's subject */
+	(void) nfilt;
 	options.overwrite_policy = (LHAOverwritePolicy) (policy / 3 % 3); options.quiet = quiet % 3; options.verbose = verbose & 1;
 	options.extract_path = (have_ext & 1) ? ext : NULL; options.use_path = use_path & 1;
 
 	/* commands: 0 l  1 v  2 t  3 p  4 x/e; the dry-run flag n is arbitrary for l, v, t, p and set for x/e */
 	ASSUME(cmd <= 4);
+#ifdef CMD
+	ASSUME(cmd == CMD);
+	cmd = CMD;           /* one command per harness instance keeps symbolic execution small */
+#endif
 	options.dry_run = dry & 1;
 	switch (cmd) {
 	case 0: list_file_basic(&filter, &options, NULL); break;
@@ -151,10 +184,18 @@ void harness(void)
 	case 4: options.dry_run = 1; extract_archive(&filter, &options); break;
 	}
 	CHECK(rd.dir_stack == NULL && rd.deferred_symlinks == NULL, "C10: read-only commands leave no pending directory/symlink work");
-	CHECK(cur == n + 1 || n == 0 && cur == 1, "the command consumed the whole archive");
+	if (!(cmd == 3 && (fws & 1))) CHECK(cur == M + 1, "the command consumed the whole archive");   /* p stops at a short write */
+#if !defined(CMD) || CMD == 2
 	if (cmd == 2 && !(dry & 1) && checks_decoded >= 2) WITNESS("t: two members decoded to the end");
+#endif
+#if !defined(CMD) || CMD == 3
 	if (cmd == 3 && !(dry & 1) && decodes >= 1 && reads_done >= 1 && n == M) WITNESS("p: member contents read");
+#endif
+#if !defined(CMD) || CMD == 4
 	if (cmd == 4 && n == M && n_exists >= 1 && (hflags[0] & 4)) WITNESS("xn: symlink member and existing-file probe");
-	if (cmd <= 1 && n == M && (nfilt & 1)) WITNESS("l/v with a wildcard filter");
+#endif
+#if !defined(CMD) || CMD <= 1
+	if (cmd <= 1 && n == M && quiet == 0) WITNESS("l/v: two members listed");
+#endif
 	WITNESS("end");
 }
